@@ -84,7 +84,10 @@ macro_rules! vec4_ops {
                 rec($out, $ty, "replace", a, &b[..($bits / 8)], i as i64, &mut || $st($ld(a).replace(i, $wfn(b)[0])));
                 rec($out, $ty, "rotate_words_right", a, &[], i as i64, &mut || $st($ld(a).rotate_words_right(i as u32)));
             }
-            for &r in $amounts.iter() {
+            for r in 1..($bits as u32) {
+                if !$amounts.contains(&r) && !(a == &$ops[0].0 || a == &$ops[$ops.len() - 1].0) {
+                    continue;
+                }
                 rec($out, $ty, "splat_rotate_right", a, &[], r as i64, &mut || $st($ld(a).splat_rotate_right(r)));
             }
             // per-lane rotation amounts taken from b (reduced to 1..bits-1)
@@ -141,7 +144,10 @@ pub fn drive_c19(out: &mut dyn std::io::Write, seed: u64, thorough: bool) {
         rec(out, "n_u128x1", "swap16", a, &[], 0, &mut || st(ld(a).swap16()));
         rec(out, "n_u128x1", "swap32", a, &[], 0, &mut || st(ld(a).swap32()));
         rec(out, "n_u128x1", "swap64", a, &[], 0, &mut || st(ld(a).swap64()));
-        for &r in am128.iter() {
+        for r in 1..128u32 {
+            if !am128.contains(&r) && !(a == &o16[0].0 || a == &o16[o16.len() - 1].0) {
+                continue;
+            }
             rec(out, "n_u128x1", "rotate_right", a, &[], r as i64, &mut || { let mut x = ld(a); x.rotate_right(r as u128); st(x) });
         }
     }
@@ -160,7 +166,10 @@ pub fn drive_c19(out: &mut dyn std::io::Write, seed: u64, thorough: bool) {
         for i in 0..2u32 {
             rec(out, "n_u128x2", "extract", a, &[], i as i64, &mut || b128(&[ld(a).extract(i)]));
         }
-        for &r in am128.iter() {
+        for r in 1..128u32 {
+            if !am128.contains(&r) && !(a == &o32[0].0 || a == &o32[o32.len() - 1].0) {
+                continue;
+            }
             rec(out, "n_u128x2", "rotate_right", a, &[], r as i64, &mut || { let mut x = ld(a); x.rotate_right(r as u128); st(x) });
         }
     }
@@ -177,7 +186,10 @@ pub fn drive_c19(out: &mut dyn std::io::Write, seed: u64, thorough: bool) {
         for i in 0..4u32 {
             rec(out, "n_u32x4x4", "rotate_words_right", a, &[], i as i64, &mut || st4(ld4(a).rotate_words_right(i)));
         }
-        for &r in am32.iter() {
+        for r in 1..32u32 {
+            if !am32.contains(&r) && !(a == &o64[0].0 || a == &o64[o64.len() - 1].0) {
+                continue;
+            }
             rec(out, "n_u32x4x4", "splat_rotate_right", a, &[], r as i64, &mut || st4(ld4(a).splat_rotate_right(r)));
         }
     }
